@@ -1120,16 +1120,40 @@ def _decorate_new_with_invariants(new_func: CallableT) -> CallableT:
 
     def wrapper(*args, **kwargs):  # type: ignore
         """Pass the arguments to __new__ and check invariants on the result."""
-        if (
-            new_func is object.__new__
-            and len(args) > 0
-            and getattr(args[0], "__init__", object.__init__) is not object.__init__
-        ):
-            # A derived class defines __init__: the remaining arguments are meant for it. ``object.__new__``
-            # accepts them only as long as __new__ is not overridden, which this very wrapper does.
-            instance = new_func(args[0])
-        else:
-            instance = new_func(*args, **kwargs)
+        # A __new__ of a derived class usually calls the (also wrapped) __new__ of its base and completes the object
+        # afterwards. The object does not exist yet, so the class under instantiation is marked instead: only
+        # the outermost __new__ hands over a finished object, and only that one checks the invariants.
+        in_progress = _IN_PROGRESS.get()
+        if in_progress is None:
+            in_progress = frozenset()
+
+        flow = _current_flow()
+        nested = len(args) > 0 and _is_in_progress(in_progress, flow, id(args[0]))
+
+        mark = None  # type: Optional[_Mark]
+        if len(args) > 0 and not nested:
+            mark = _Mark(flow, id(args[0]))
+            _IN_PROGRESS.set(in_progress | {mark})
+
+        try:
+            if (
+                new_func is object.__new__
+                and len(args) > 0
+                and getattr(args[0], "__init__", object.__init__)
+                is not object.__init__
+            ):
+                # A derived class defines __init__: the remaining arguments are meant for it. ``object.__new__``
+                # accepts them only as long as __new__ is not overridden, which this very wrapper does.
+                instance = new_func(args[0])
+            else:
+                instance = new_func(*args, **kwargs)
+        finally:
+            if mark is not None:
+                mark.active = False
+                _IN_PROGRESS.set(in_progress)
+
+        if nested:
+            return instance
 
         if len(args) == 0 or not isinstance(instance, args[0]):
             # __new__ returned an object of another class (*e.g.*, a factory or a sentinel). Python does not
